@@ -949,7 +949,16 @@ func C12NewProc(e *C12Env, r C12Registrar, sel *phantoms.PhantomIPSelector) (*C1
 		var rp *RegProcessor
 		var err error
 		if r.Auth {
-			rp, err = NewRegProcessor("127.0.0.1", 0, priv, false, nil, e.Metrics, conf.EnforceSubnetOverrides, conf.OverrideSubnets, conf.ExclusionsFromOverride, conf.PrcntMinRegsToOverride, conf.PrcntPrefixRegsToOverride)
+			// zmq.AuthStop returns before libzmq has released the ZAP handler's inproc endpoint
+			// of the previous case (socket close is asynchronous), so AuthStart can transiently
+			// report "address already in use": wait for the endpoint, bounded (harness only).
+			for attempt := 0; attempt < 2000; attempt++ {
+				rp, err = NewRegProcessor("127.0.0.1", 0, priv, false, nil, e.Metrics, conf.EnforceSubnetOverrides, conf.OverrideSubnets, conf.ExclusionsFromOverride, conf.PrcntMinRegsToOverride, conf.PrcntPrefixRegsToOverride)
+				if err == nil || !strings.Contains(err.Error(), "address already in use") {
+					break
+				}
+				time.Sleep(100 * time.Microsecond)
+			}
 		} else {
 			rp, err = NewRegProcessorNoAuth("127.0.0.1", 0, e.Metrics, conf.EnforceSubnetOverrides, conf.OverrideSubnets, conf.ExclusionsFromOverride, conf.PrcntMinRegsToOverride, conf.PrcntPrefixRegsToOverride)
 		}
